@@ -22,3 +22,10 @@ package bandtss
 //@          && (forall q Bz :: q != types.GroupTransitionStoreKey && q != types.CurrentGroupStoreKey
 //@                && !(iskey(types.MemberStoreKey, q) && keyarg(types.MemberStoreKey, q, 1) == old(keeper.bTransitionAt(Store_bandtss)).CurrentGroupID)
 //@                ==> Store_bandtss[q] == old(Store_bandtss)[q]))
+
+// C02 / C14: the bandtss begin-blocker is the reward allocation, nothing else
+//@ func BeginBlocker
+//@ may_panic
+//@ modifies Bank, Other, DistrReceived, DistrAllocated
+//@ requires keeper.bParams(Store_bandtss).RewardPercentage <= 100
+//@ ensures err == nil ==> (forall d Str :: DistrAllocated[d] - old(DistrAllocated)[d] == DistrReceived[d] - old(DistrReceived)[d])
